@@ -181,6 +181,10 @@ class LiteralEvaluator:
 	def on_func_call(self, node: defs.FuncCall, calls: Evaluator.Value, arguments: list[Evaluator.Value]) -> Evaluator.Value:
 		# スカラー型のキャストのみ許可
 		org_calls = node.calls.tokens
+		# XXX 基数などの追加引数は未対応。引数を無視して変換すると異なる値になるため、単一引数のキャストのみ許可
+		if len(arguments) != 1:
+			raise Errors.OperationNotAllowed(node, calls, arguments)
+
 		if org_calls == 'int':
 			if isinstance(arguments[0], str):
 				return int(arguments[0][1:-1])
